@@ -38,7 +38,10 @@ def boilerplate():
 
 
 def write(items, missing_alt=".", missing_ins="?", missing_chg="?", label_auth="same", header=True, entry="XXXX",
-          decimals=3):
+          decimals=3, layout="wwpdb", rng=None):
+    """layout: which _atom_site items are written and in which order - 'wwpdb' (the archive's 21 items), 'short'
+    (without the redundant auth_comp_id / auth_atom_id), 'noentity' (without label_entity_id / label_seq_id),
+    'extra' (additional esd items with '?'), 'shuffled' (all items in a random order; needs rng)."""
     """label_auth: 'same' (label ids = auth ids) | 'wwpdb' (label_asym_id per entity instance: polymer chains keep
     their letter, every hetero/water group gets a fresh label_asym_id; label_seq_id = 1..n per chain)."""
     out = [f"data_{entry}", "#"]
@@ -48,6 +51,17 @@ def write(items, missing_alt=".", missing_ins="?", missing_chg="?", label_auth="
             "label_entity_id", "label_seq_id", "pdbx_PDB_ins_code", "Cartn_x", "Cartn_y", "Cartn_z", "occupancy",
             "B_iso_or_equiv", "pdbx_formal_charge", "auth_seq_id", "auth_comp_id", "auth_asym_id", "auth_atom_id",
             "pdbx_PDB_model_num"]
+    allcols = list(cols)
+    if layout == "short":
+        cols = [c for c in cols if c not in ("auth_comp_id", "auth_atom_id")]
+    elif layout == "noentity":
+        cols = [c for c in cols if c not in ("label_entity_id", "label_seq_id")]
+    elif layout == "extra":
+        k = cols.index("occupancy")
+        cols = cols[:k] + ["Cartn_x_esd", "Cartn_y_esd", "Cartn_z_esd"] + cols[k:]
+    elif layout == "shuffled":
+        cols = list(cols)
+        rng.shuffle(cols)
     out.append("loop_")
     out += ["_atom_site." + c for c in cols]
     model = 1
@@ -90,6 +104,7 @@ def write(items, missing_alt=".", missing_ins="?", missing_chg="?", label_auth="
         row = [a["rec"], a["serial"], a["elem"] or "X", q(a["name"]), a["alt"] or missing_alt, a["resn"], lab_asym, 1,
                lab_seq, a["icode"] or missing_ins, fmt % a["x"], fmt % a["y"], fmt % a["z"], "%.2f" % a["occ"],
                "%.2f" % a["b"], a["chg"] or missing_chg, a["resi"], a["resn"], chain, q(a["name"]), model]
-        out.append(" ".join(str(x) for x in row))
+        byname = dict(zip(allcols, row))
+        out.append(" ".join(str(byname.get(c, "?")) for c in cols))
     out.append("#")
     return "\n".join(out) + "\n"
